@@ -39,6 +39,10 @@ def make_project(rng, root, nfiles, shared=True, twins=0):
         # cross-file use: a method declared here and called, unqualified, only from the next file (whatever a scan
         # derives from "is this method called" must not depend on which files a worker happened to get)
         cross = "    int only%d(int a) { return a; }\n    int user%d() { return only%d(%d); }\n" % (i, i, (i + 1) % max(nfiles, 1), i)
+        # overloads called unqualified with different argument counts, some overloads never called: "is this method
+        # called" is decided per declaration (name and argument count), the same way on every scan
+        cross += ("    void ov%d() { }\n    void ov%d(int a) { }\n    void ov%d(int a, int b) { }\n    void ov%d(int a, int b, int c) { }\n"
+                  "    void calls%d() { ov%d(1); ov%d(1, 2); ov%d(3); un%d(1, 2); un%d(); }\n    void un%d(int a) { }\n    void un%d() { }\n" % ((i,) * 12))
         text = text.rstrip().rstrip("}") + "\n" + cross + "}\n"
         rel = "src/p%d/F%d.java" % (i % 3, i)
         files[rel] = text
